@@ -709,3 +709,75 @@ Proof.
   - rewrite <- !(borda_score_perm _ _ _ _ HP). apply H2. exact Hb.
   - rewrite !(borda_score_perm _ _ _ _ HP). apply H2. exact Hb.
 Qed.
+
+(* =========================================================================================== *)
+(* is_approval decides the documented notion of an approval profile: every ballot is a single class, or every
+   ballot is complete with at most two classes *)
+Lemma max_list_le : forall l x b, max_list x l <= b <-> x <= b /\ forall y, In y l -> y <= b.
+Proof.
+  induction l as [|z l IH]; intros x b; unfold max_list in *; simpl.
+  - split; [intro H; split; [exact H|intros ? []]|intros [H _]; exact H].
+  - rewrite IH. split.
+    + intros [H1 H2]. split; [lia|]. intros y [Hy|Hy]; [subst; lia|apply H2; exact Hy].
+    + intros [H1 H2]. split; [assert (z <= b) by (apply H2; left; reflexivity); lia|]. intros y Hy. apply H2. right. exact Hy.
+Qed.
+
+Lemma min_list_ge : forall l x b, b <= min_list x l <-> b <= x /\ forall y, In y l -> b <= y.
+Proof.
+  induction l as [|z l IH]; intros x b; unfold min_list in *; simpl.
+  - split; [intro H; split; [exact H|intros ? []]|intros [H _]; exact H].
+  - rewrite IH. split.
+    + intros [H1 H2]. split; [lia|]. intros y [Hy|Hy]; [subst; lia|apply H2; exact Hy].
+    + intros [H1 H2]. split; [assert (b <= z) by (apply H2; left; reflexivity); lia|]. intros y Hy. apply H2. right. exact Hy.
+Qed.
+
+Lemma ballot_size_concat : forall o, ballot_size o = length (concat o).
+Proof. induction o as [|c r IH]; [reflexivity|]. simpl. rewrite app_length, <- IH. reflexivity. Qed.
+
+Definition approval_shape (i : inst) : Prop :=
+  (forall om, In om (prof i) -> length (fst om) = 1) \/
+  ((forall om, In om (prof i) -> length (fst om) <= 2) /\
+   (forall om, In om (prof i) -> length (concat (fst om)) = length (alts i))).
+
+Theorem is_approval_spec : forall i, wf_inst i -> dt_in (dt i) dom5 = true ->
+  (is_approval i = Ok true <-> approval_shape i).
+Proof.
+  intros i W D. unfold is_approval, is_complete, approval_shape. unfold dom5 in D. rewrite D.
+  assert (Hlen : forall om, In om (prof i) -> 1 <= length (fst om)).
+  { intros om Hom. destruct (wi_ord i W om Hom) as [Wo _]. assert (N := wo_ne _ _ Wo). destruct (fst om); [congruence|simpl; lia]. }
+  assert (Hsz : forall om, In om (prof i) -> length (concat (fst om)) <= length (alts i)).
+  { intros om Hom. destruct (wi_ord i W om Hom) as [Wo _]. apply NoDup_incl_length; [apply (wo_nodup _ _ Wo)|apply (wo_incl _ _ Wo)]. }
+  destruct (prof i) as [|om0 p] eqn:Ep; [exfalso; apply (wi_ne i W); exact Ep|].
+  cbn [map].
+  match goal with |- context [max_list ?a ?b] => set (m := max_list a b) end.
+  match goal with |- context [min_list ?a ?b] => set (s := min_list a b) end.
+  assert (Hm : forall b, m <= b <-> forall om, In om (om0 :: p) -> length (fst om) <= b).
+  { intros b. unfold m. rewrite max_list_le. split.
+    - intros [H1 H2] om [Hom|Hom]; [subst; exact H1|]. apply H2. apply in_map_iff. exists om. split; [reflexivity|exact Hom].
+    - intros H. split; [apply H; left; reflexivity|]. intros y Hy. apply in_map_iff in Hy. destruct Hy as [om [E Hom]]. subst y. apply H. right. exact Hom. }
+  assert (Hs : forall b, b <= s <-> forall om, In om (om0 :: p) -> b <= length (concat (fst om))).
+  { intros b. unfold s. rewrite min_list_ge. split.
+    - intros [H1 H2] om [Hom|Hom]; [subst; rewrite <- ballot_size_concat; exact H1|]. rewrite <- ballot_size_concat. apply H2.
+      apply in_map_iff. exists om. split; [reflexivity|exact Hom].
+    - intros H. split; [rewrite ballot_size_concat; apply H; left; reflexivity|]. intros y Hy. apply in_map_iff in Hy.
+      destruct Hy as [om [E Hom]]. subst y. rewrite ballot_size_concat. apply H. right. exact Hom. }
+  assert (Hm1 : 1 <= m).
+  { assert (X : m <= m) by lia. rewrite Hm in X. specialize (X om0 (or_introl eq_refl)). specialize (Hlen om0 (or_introl eq_refl)). lia. }
+  assert (Hs0 : s <= length (alts i)).
+  { assert (X : s <= s) by lia. rewrite Hs in X. specialize (X om0 (or_introl eq_refl)). specialize (Hsz om0 (or_introl eq_refl)). lia. }
+  rewrite (wi_nalt i W).
+  destruct (Nat.eqb_spec m 1) as [E1|E1].
+  - split; [intros _|reflexivity]. left. intros om Hom. assert (X : m <= 1) by lia. rewrite Hm in X.
+    specialize (X om Hom). specialize (Hlen om Hom). lia.
+  - destruct (Nat.eqb_spec m 2) as [E2|E2].
+    + split.
+      * intro H. inversion H as [H']. apply N.eqb_eq in H'. apply Nat2N.inj in H'. right. split.
+        -- apply Hm. lia.
+        -- intros om Hom. assert (X : s <= s) by lia. rewrite Hs in X. specialize (X om Hom). specialize (Hsz om Hom). lia.
+      * intros [H|[H1 H2]].
+        -- exfalso. assert (X : m <= 1) by (apply Hm; intros om Hom; rewrite (H om Hom); lia). lia.
+        -- f_equal. apply N.eqb_eq. f_equal. assert (X : length (alts i) <= s) by (apply Hs; intros om Hom; rewrite (H2 om Hom); lia). lia.
+    + split; [discriminate|]. intros [H|[H1 H2]]; exfalso.
+      * assert (X : m <= 1) by (apply Hm; intros om Hom; rewrite (H om Hom); lia). lia.
+      * assert (X : m <= 2) by (apply Hm; exact H1). lia.
+Qed.
